@@ -415,6 +415,42 @@ fn templates(ctx: &mut Ctx) {
                 ctx.sess.checked("E", "E:C1");
             }
         }
+        "C19" | "C01" | "C02" | "C15" => {
+            // a cell saturated with combining characters (>= 18 live bytes, where `append` stops),
+            // overwritten by a shorter saturated cluster: stale bytes stay behind the live prefix.
+            // Snapshot 0 holds the same visible text written on a clean cell.
+            let e0100 = "f3a08480"; // U+E0100, zero width, 4 bytes
+            let c301 = "cc81"; // U+0301, zero width, 2 bytes
+            let bases = ["61", "e4b880"]; // 'a', wide U+4E00
+            for base in bases {
+                let blen = base.len() / 2;
+                for long_n in [4usize, 5] {
+                    for short_n in [7usize, 8, 9] {
+                        let long = format!("{base}{}", e0100.repeat(long_n));
+                        let short = format!("{base}{}", c301.repeat(short_n));
+                        if blen + 4 * long_n > 22 || blen + 2 * short_n >= blen + 4 * long_n {
+                            continue;
+                        }
+                        ctx.case_start = ctx.sess.ops.len();
+                        ctx.sess.new_case(2, 4, 0, "none", "template");
+                        ctx.sess.checked(&format!("P {short}"), "Saturated");
+                        ctx.sess.snapshot(0);
+                        ctx.sess.checked(&format!("P 0d{long}"), "Saturated");
+                        ctx.sess.checked("D", "D:Saturated");
+                        ctx.sess.checked(&format!("P 0d{short}"), "Saturated");
+                        ctx.sess.checked("D", "D:Saturated");
+                        ctx.sess.checked("X contents 0", "X");
+                        ctx.sess.checked("X state 0", "X");
+                        ctx.sess.checked("RD 0 0 4", "RD");
+                        ctx.sess.checked("F state", "F");
+                        ctx.sess.checked("RF 0 4", "RF");
+                        let mut dirty = None;
+                        let mut chain = None;
+                        run_oracle(ctx, &mut dirty, &mut chain);
+                    }
+                }
+            }
+        }
         _ => {}
     }
 }
